@@ -30,7 +30,7 @@ fn engine_count(g: &mut MoveGenerator, p: &Pos, d: u32, pool: usize) -> Result<u
 }
 
 pub fn c10(o: &Opts) -> i32 {
-    let ctx = default_ctx("C10", o, 60.0, 700.0);
+    let ctx = default_ctx("C10", o, 100.0, 900.0);
     if let Some(part) = &o.part {
         // child-process mode for deep counts: "deep|<fen>|<depth>|<pool>"
         let f: Vec<&str> = part.split('|').collect();
@@ -63,6 +63,23 @@ pub fn c10(o: &Opts) -> i32 {
     // a generator reused across depths and positions, as run_count_positions does
     let mut used = MoveGenerator::new();
     let mut evaluations = 0u64;
+    // every pool size 1..=16 at a moderate depth (the result must not depend on how rayon splits the root moves)
+    for (ti, (p, maxd, _t)) in targets.iter().enumerate() {
+        if o.replay.is_none() && (ti % (if q { 3 } else { 2 }) != 0 || p.legal_moves().len() > 24) { continue; }
+        if ctx.budget_used() > 0.45 { break; }
+        let d = (*maxd).min(if p.piece_count() > 12 { 1 } else { 2 });
+        let want = p.cum_perft(d);
+        for pool in 1..=16usize {
+            let got = engine_count(&mut MoveGenerator::new(), p, d, pool);
+            evaluations += 1; ctx.count("pool_sweep_counts", 1);
+            ctx.distinct(p.key_hash() ^ (d as u64) << 60 ^ (pool as u64) << 50 ^ 7);
+            match got {
+                Ok(n) if n == want => {}
+                Ok(n) => ctx.violation("c10:count-depends-on-pool-size", &format!("count_positions({}) on {} = {} on a pool of {} threads; the true number is {}", d, p.to_fen(), n, pool, want), json!({"fen": p.to_fen(), "depth": d, "pool": pool, "engine": n, "rules": want})),
+                Err(e) => ctx.violation(&format!("c10:panic:{}", par::last_panic_location()), &format!("count_positions({}) on {} failed: {}", d, p.to_fen(), e), json!({"fen": p.to_fen(), "depth": d, "pool": pool})),
+            }
+        }
+    }
     for (ti, (p, maxd, tagname)) in targets.iter().enumerate() {
         if ctx.budget_used() > 0.8 { ctx.count("targets_skipped_for_time_budget", 1); continue; }
         let levels = p.perft_levels(*maxd + 1);
@@ -84,23 +101,6 @@ pub fn c10(o: &Opts) -> i32 {
                     Err(e) => ctx.violation(&format!("c10:panic:{}", par::last_panic_location()), &format!("count_positions({}) on {} failed: {}", d, p.to_fen(), e), json!({"fen": p.to_fen(), "depth": d, "pool": pool})),
                 }
                 if ti % 7 == 0 && d == *maxd { ctx.sample(json!({"fen": p.to_fen(), "depth": d, "pool": pool, "generator": mode, "count": want})); }
-            }
-        }
-    }
-    // every pool size 1..=16 at a moderate depth (the result must not depend on how rayon splits the root moves)
-    for (ti, (p, maxd, _t)) in targets.iter().enumerate() {
-        if o.replay.is_none() && ti % (if q { 5 } else { 2 }) != 0 { continue; }
-        if ctx.budget_used() > 0.9 { break; }
-        let d = (*maxd).min(if p.piece_count() > 12 { 1 } else { 2 });
-        let want = p.cum_perft(d);
-        for pool in 1..=16usize {
-            let got = engine_count(&mut MoveGenerator::new(), p, d, pool);
-            evaluations += 1; ctx.count("pool_sweep_counts", 1);
-            ctx.distinct(p.key_hash() ^ (d as u64) << 60 ^ (pool as u64) << 50 ^ 7);
-            match got {
-                Ok(n) if n == want => {}
-                Ok(n) => ctx.violation("c10:count-depends-on-pool-size", &format!("count_positions({}) on {} = {} on a pool of {} threads; the true number is {}", d, p.to_fen(), n, pool, want), json!({"fen": p.to_fen(), "depth": d, "pool": pool, "engine": n, "rules": want})),
-                Err(e) => ctx.violation(&format!("c10:panic:{}", par::last_panic_location()), &format!("count_positions({}) on {} failed: {}", d, p.to_fen(), e), json!({"fen": p.to_fen(), "depth": d, "pool": pool})),
             }
         }
     }
@@ -153,5 +153,5 @@ pub fn c10(o: &Opts) -> i32 {
     ctx.finish(evaluations,
         "count_positions(d) for d = 0..max on perft-suite/corpus positions and random set-ups, on rayon pools of 1/2/3/5/8/16 threads, with brand-new generators and with one generator reused across all depths and positions (as the CLI routine does), compared with the reference engine's cumulative perft; thorough adds depth 5 from the initial position in a child process; the `chess count-positions` binary built from /repo is run and its figures parsed. distinct_nontrivial = distinct (position, depth, pool, generator mode) whose true count exceeds 1000",
         &["reference perft reproduces the published node counts at start-up"],
-        &[("counts_with_fresh_generator", 20), ("counts_with_used_generator", 10), ("deepest_count_depth", if q { 4 } else { 5 })])
+        &[("counts_with_fresh_generator", 15), ("counts_with_used_generator", 10), ("pool_sweep_counts", 64), ("deepest_count_depth", if q { 4 } else { 5 })])
 }
